@@ -752,3 +752,143 @@ def linear_calls(fn_or_block):
     for i, c in enumerate(out):
         c["i"] = i
     return out
+
+
+# ---------------------------------------------------------------------------
+# rename-tolerant fragment matching
+#
+# Many rules test that a normalised statement shape occurs in a function body
+# (`frag in txt(fn["body"])`).  A local variable renamed everywhere in that
+# function leaves the behaviour unchanged, so it must not raise an alarm.
+# FragText is a str whose `in` / `==` fall back, when the literal test fails, to
+# matching modulo a consistent renaming of identifiers that have *vanished* from
+# the function (names the fragment uses but the function no longer contains) to
+# identifiers that are *new* (present in the function, unknown to the fragment).
+# Names that still occur are never renamed, so an exchange of two existing names
+# (i <-> j, lhs <-> rhs) is still a mismatch.
+
+import re as _re
+
+_KW = {"let", "for", "in", "if", "else", "return", "mut", "as", "match", "while", "loop", "break", "continue", "ref",
+       "move", "unsafe", "fn", "impl", "self", "Self", "true", "false", "Some", "None", "Ok", "Err"}
+_WORD = _re.compile(r"[A-Za-z_][A-Za-z_0-9]*")
+
+
+def _spaced(node):
+    s = unparse(node)
+    s = _re.sub(r"(?<=[A-Za-z_0-9]) +(?=[A-Za-z_0-9])", "\x01", s)
+    return s.replace(" ", "").replace("\x01", " ")
+
+
+class FragText(str):
+    def __new__(cls, node):
+        spaced = _spaced(node)
+        o = super().__new__(cls, spaced.replace(" ", ""))
+        o._spaced = spaced
+        o._vocab = set(_WORD.findall(spaced))
+        # only locally bound names may stand in for a fragment's name: a field or method that changed is never forgiven
+        o._bound = {n["name"] for n in walk(node) if isinstance(n, dict) and n.get("k") == "PIdent"}
+        o._map = {}
+        return o
+
+    def _segment(self, token):
+        """split a fused fragment token (`letnext_center`) into words; returns (words, unknown words)"""
+        vocab = self._vocab | _KW
+        n = len(token)
+        best = {0: ([], 0)}
+        for i in range(n):
+            if i not in best:
+                continue
+            words, unk = best[i]
+            for j in range(i + 1, n + 1):
+                w = token[i:j]
+                if not _re.fullmatch(r"[A-Za-z_][A-Za-z_0-9]*|[0-9][A-Za-z_0-9.]*", w) and not w[0].isdigit():
+                    continue
+                cost = 0 if (w in vocab or w[0].isdigit()) else len(w) + 1
+                cand = (words + [w], unk + cost)
+                if j not in best or cand[1] < best[j][1] or (cand[1] == best[j][1] and len(cand[0]) < len(best[j][0])):
+                    best[j] = cand
+        return best.get(n, ([token], 1))
+
+    def _vanished(self, frag):
+        out = []
+        for tok in _WORD.findall(frag):
+            if tok in self._vocab or tok in _KW:
+                continue
+            words, unk = self._segment(tok)
+            for w in words:
+                if w not in self._vocab and w not in _KW and not w[0].isdigit() and w not in out:
+                    out.append(w)
+        return out
+
+    def _tolerant(self, frag, whole=False):
+        van = [v for v in self._vanished(frag) if len(v) > 0]
+        if not van or len(van) > 3:
+            return False
+        frag_words = set()
+        for mo in _WORD.finditer(frag):
+            words = self._segment(mo.group(0))[0]
+            frag_words.update(words)
+            # a name used as a field, method, path segment, macro or call is not a local: never forgiven
+            pre = frag[mo.start() - 1] if mo.start() else ""
+            post = frag[mo.end():mo.end() + 2]
+            if words[0] in van and pre in (".", ":"):
+                return False
+            if words[-1] in van and (post[:1] in ("(", "!") or post == "::" or (post[:1] == ":" and pre in ("{", ","))):
+                return False
+        # the fragment needs an anchor the function still has, else anything matches anything
+        if not any(w in self._vocab and w not in _KW and not w[0].isdigit() for w in frag_words):
+            return False
+        new = sorted(w for w in self._bound if w not in _KW and w not in frag_words and not w[0].isupper())
+        # apply mappings already decided on this text first
+        def apply(f, m):
+            if not m:
+                return f
+
+            def sub(mo):
+                return "".join(m.get(w, w) for w in self._segment(mo.group(0))[0])
+
+            return _WORD.sub(sub, f)
+
+        def test(f):
+            return (f == str(self)) if whole else str.__contains__(self, f)
+
+        base = apply(frag, {k: v for k, v in self._map.items() if k in van})
+        rest = [v for v in van if v not in self._map]
+        if not rest:
+            return test(base)
+        import itertools
+
+        for combo in itertools.permutations(new, len(rest)) if len(rest) <= 2 else []:
+            m = dict(zip(rest, combo))
+            if test(apply(base, m)):
+                self._map.update(m)
+                return True
+        return False
+
+    def __contains__(self, frag):
+        if str.__contains__(self, frag):
+            return True
+        try:
+            return self._tolerant(frag)
+        except Exception:
+            return False
+
+    def __eq__(self, other):
+        if str.__eq__(self, other):
+            return True
+        if isinstance(other, str) and not isinstance(other, FragText):
+            try:
+                return self._tolerant(other, whole=True)
+            except Exception:
+                return False
+        return False
+
+    def __ne__(self, other):
+        return not self.__eq__(other)
+
+    __hash__ = str.__hash__
+
+
+def ftxt(node):
+    return FragText(node)
